@@ -1,0 +1,35 @@
+// +build verif
+
+package rocks
+
+// Contracts for the verifier in /verif (comment-only; see /verif/DESIGN.md).
+// Everything here is relative to the assumed contract of the RocksDB wrapper
+// (/verif/contracts/trusted); nothing in this package can be replayed in the
+// sandbox (the engine is not available), so a failure here is reported without
+// a failing input.
+
+/*@
+immutable RocksDBStore.db, RocksDBStore.cfHandles, RocksDBStore.ro, RocksDBStore.wo by NewRocksDBStoreWithOpts, RocksDBStore.Close
+
+// C07: all mutations of one Mutate call, and the metadata, go into ONE write batch
+// that is handed to the engine with ONE Write
+func RocksDBStore.Mutate
+  props C07 C14
+  requires s.db != nil
+  requires forall k int :: 0 <= k && k < len(mutations) ==> mutations[k] != nil && int(mutations[k].Table) < len(s.cfHandles)
+  modifies dbWrites, lastWritePuts, lastWriteHadLogData, batchPuts, batchHasLogData
+  ensures C07/one-write: dbWrites == old(dbWrites) + 1
+  ensures C07/all-mutations-in-that-write: len(mutations) == lastWritePuts && lastWriteHadLogData
+  loop 1 modifies batchPuts
+  loop 1 invariant batchPuts == rangeindex + 1 && rangeindex < len(mutations) && batchHasLogData && dbWrites == old(dbWrites)
+
+func RocksDBStore.Get
+  props C14
+  requires s.db != nil && int(table) < len(s.cfHandles)
+  ensures isnil(result_1) ==> result_0 != nil && result_0.Key == key
+
+func RocksDBStore.GetLast
+  props C14
+  requires s.db != nil && int(table) < len(s.cfHandles)
+  ensures isnil(result_1) ==> result_0 != nil
+@*/
